@@ -169,9 +169,11 @@ func (C15) Run(c core.Case, ctx *core.Ctx) []core.Violation {
 	for k := 0; k < ctx.NumSchedules(); k++ {
 		rt, sim := execWorld(&w, ctx, k)
 		if rt.InstErr != nil {
+			// nothing in these worlds is malformed: a constructor that refuses one of its
+			// functions or value lists has refused legal input
 			ctx.St.Inc("inst_rejected")
 			finish(ctx, rt, sim)
-			return nil
+			return []core.Violation{{Class: "construction-refused", Site: "NewValueSet|BuildFunc", Detail: "a constructor returned an error for well-formed input: " + trunc(rt.InstErr.Error())}}
 		}
 		// accessor clauses on every built party's lists
 		for pi, p := range w.Parties {
